@@ -34,6 +34,17 @@ SYL = ["ka", "lo", "mi", "ren", "tov", "bar", "zen", "qua", "dri", "fel", "gor",
 PROSE = ["The court then turned to the merits", "That reasoning was later adopted", "We find this persuasive", "As the panel explained",
          "Nothing more was said"]
 AFTER = ["", " The panel agreed", " That was the end of it"]
+LONG_WORDS = ["the", "panel", "then", "turned", "to", "merits", "and", "found", "this", "reasoning", "persuasive", "because", "record", "showed", "nothing", "else"]
+
+
+def prose_for(case):
+    """Neutral prose in front of the citation; optionally longer than the 300-character backward scan window."""
+    base = PROSE[case.get("prose", 0) % len(PROSE)]
+    n = case.get("long", 0)
+    if not n:
+        return base
+    words = [LONG_WORDS[(i * 7 + n) % len(LONG_WORDS)] for i in range(n)]
+    return base + " " + " ".join(words)
 MONTHS = ["Jan.", "Feb.", "Mar.", "Apr.", "May", "June", "July", "Aug.", "Sept.", "Oct.", "Nov.", "Dec."]
 SAFE_PARALLEL = ["S. Ct.", "L. Ed. 2d", "F.2d", "F.3d", "A.2d", "N.E.2d", "P.2d", "Cal. Rptr. 3d"]
 G = {}
@@ -244,7 +255,7 @@ def eval_example(case, res):
 def _render_full(case):
     """Render a full case citation; returns text and the ground truth."""
     t = {}
-    prose = PROSE[case.get("prose", 0) % len(PROSE)]
+    prose = prose_for(case)
     signal = ["", "See ", "See also ", "But see "][case.get("signal", 0) % 4]
     pl, df = case["plaintiff"], case["defendant"]
     core = f"{case['volume']} {case['reporter']} {case['page']}"
@@ -369,7 +380,7 @@ def eval_short(case, res):
         res.label("excluded:comma-or-at-suffixed-string")
         return res
     ante = case.get("antecedent") or ""
-    prose = PROSE[case.get("prose", 0) % len(PROSE)]
+    prose = prose_for(case)
     page = case["page"]
     core = f"{case['volume']} {R}{',' if case.get('comma') else ''} at {page}"
     pin_tail = case.get("pin_tail") or ""  # e.g. "-350" or ", 360"
@@ -425,7 +436,7 @@ def eval_short(case, res):
 
 def eval_supra(case, res):
     ante = case["antecedent"]
-    prose = PROSE[case.get("prose", 0) % len(PROSE)]
+    prose = prose_for(case)
     vol = case.get("volume") or ""
     pin = case.get("pin") or ""  # e.g. "at 240" / "at 240-41"
     s = f"{prose}. "
@@ -649,7 +660,8 @@ def _full_case(draw, court_only=False):
     vol = draw(_volume_for(R))
     page = draw(st.one_of(st.integers(1, 9999).map(str), st.integers(1, 9999).map(str), st.sampled_from(["___", "_", "xiv", "lxiv"])))
     case = {"form": "full", "reporter": R, "volume": vol, "page": page, "plaintiff": draw(_party), "defendant": draw(_party),
-            "prose": draw(st.integers(0, 4)), "signal": draw(st.integers(0, 3)), "term": draw(st.integers(0, 4))}
+            "prose": draw(st.integers(0, 4)), "signal": draw(st.integers(0, 3)), "term": draw(st.integers(0, 4)),
+            "long": draw(st.sampled_from([0, 0, 0, 0, 45, 70, 120]))}
     case["pin"] = draw(_pin(page))
     if "&" in case["pin"]:
         case["pin"] = case["pin"].replace(" & n. 4", "")
@@ -672,7 +684,8 @@ def _short(draw):
     if tail == " n. 4":
         tail = ""
     return {"form": "short", "reporter": R, "volume": draw(_volume_for(R)), "page": page, "comma": draw(st.booleans()), "pin_tail": tail,
-            "antecedent": draw(st.one_of(st.just(""), _word)), "paren": draw(_paren), "prose": draw(st.integers(0, 4)), "term": draw(st.integers(0, 3))}
+            "antecedent": draw(st.one_of(st.just(""), _word)), "paren": draw(_paren), "prose": draw(st.integers(0, 4)), "term": draw(st.integers(0, 3)),
+            "long": draw(st.sampled_from([0, 0, 0, 45, 70, 120]))}
 
 
 @st.composite
@@ -680,7 +693,7 @@ def _supra(draw):
     n = draw(st.integers(1, 999))
     return {"form": "supra", "antecedent": draw(_word), "volume": draw(st.sampled_from(["", "", "", str(draw(st.integers(1, 999)))])),
             "pin": draw(st.sampled_from(["", f"at {n}", f"at {n}-{n + 5}", f"at {n}, {n + 9}", f"{n}"])), "sep": draw(st.integers(0, 2)),
-            "prose": draw(st.integers(0, 4)), "term": draw(st.integers(0, 2))}
+            "prose": draw(st.integers(0, 4)), "term": draw(st.integers(0, 2)), "long": draw(st.sampled_from([0, 0, 0, 45, 70, 120]))}
 
 
 @st.composite
